@@ -93,7 +93,7 @@ def worker(args):
     return dict(sub=sub.dump(), states=ex.states, transitions=ex.transitions, executions=ex.executions)
 
 def run(ctx):
-    agg = sx.run_catalogue(ctx, worker, tier='quick' if ctx.quick else 'thorough')
+    agg = sx.run_catalogue(ctx, worker, tier='quick' if ctx.quick else 'thorough', fixtures=('populated', 'empty', 'populated-seeds'))
     ctx.guard('flush transitions', ctx.counters.get('flush_transitions', 0), 5000)
     ctx.guard('successful flushes with pending writes', ctx.counters.get('flush_ok', 0), 1000)
     ctx.cov['per_model'] = agg['per_model']
